@@ -22,7 +22,8 @@ from ..ref import e_strace as S
 
 ID = "C25"
 LEVEL = "exploration"
-RULE = ("case families: sequel (10 layouts in which an earlier test / toplevel call / shared function exhausts the "
+RULE = ("case families: imports (multi-file projects: layered diamond import graphs depth 8..26 x width 2..3, with "
+        "cycles / skip edges, long chains), sequel (10 layouts in which an earlier test / toplevel call / shared function exhausts the "
         "budget and a non-terminating unit follows in the same process), nonterm (15 looping/recursing shapes x 20 loop bodies x phase shift x {top, function, test} x "
         "{playground-run, sandboxed-test}), depth (bounded recursion around the 1000-frame limit), builtin (every "
         "built-in stub with canonical arguments, stdin never written), nest (values nested 10^2..4*10^4 deep built in a "
@@ -72,6 +73,11 @@ def gen_cases(tier, seed):
         if name.endswith(".gdn"):
             for mode in ("playground", "sbtest"):
                 yield {"t": "corpus", "file": name, "mode": mode, "where": "file"}
+    # core i: multi-file projects whose import graph has many paths to the same file (loading happens outside
+    # the tick budget, so only a visited-set keeps it linear)
+    for ii, (layout, depth, width) in enumerate(IMPORT_CORE):
+        yield {"t": "imports", "layout": layout, "depth": depth, "width": width, "where": "file",
+               "mode": "playground" if (ii + seed) % 2 == 0 else "sbtest"}
     # core 0: the budget is exhausted by an EARLIER unit (test, toplevel expression, shared function) and a
     # non-terminating unit follows in the same process
     for li, layout in enumerate(SEQUEL_LAYOUTS):
@@ -126,7 +132,12 @@ def gen_cases(tier, seed):
         r = rng.random()
         mode = rng.choice(("playground", "sbtest"))
         where = rng.choice(wheres)
-        if r < 0.12:
+        if r < 0.05:
+            layout = rng.choice(IMPORT_LAYOUTS)
+            yield {"t": "imports", "layout": layout, "where": "file", "mode": mode,
+                   "depth": rng.randint(8, 26) if layout != "chain" else rng.choice([50, 150, 300]),
+                   "width": rng.choice([2, 2, 3])}
+        elif r < 0.17:
             layout = rng.choice(SEQUEL_LAYOUTS)
             yield {"t": "sequel", "layout": layout, "mode": "playground" if layout.startswith("P") else "sbtest",
                    "where": "file", "shapes": [rng.choice(TICK_SHAPES if rng.random() < 0.7 else G.NONTERM_SHAPES)] +
@@ -220,6 +231,55 @@ def nest_program(c):
             lines = [("  v = " + expr) if ln.startswith("  v = ") else ln for ln in lines]
             body = "\n".join(lines)
     return defs + body + "println(\"VB\")\n" + G.NEST_OPS[c["op"]] + "\n"
+
+
+IMPORT_LAYOUTS = ["diamond", "diamond-cycle", "diamond-skip", "chain", "chain-cycle"]
+# deepest diamonds first, one per batch of 4, so that a 10x re-run (one per batch) is always available to them
+IMPORT_CORE = [("diamond", 26, 2), ("chain", 200, 1), ("diamond-cycle", 12, 2), ("diamond", 8, 3),
+               ("diamond", 20, 3), ("chain-cycle", 60, 1), ("diamond-skip", 14, 2), ("diamond-cycle", 24, 2)]
+IMPORT_TIMEOUT = 6.0
+
+
+def import_project(c, root):
+    """Write a multi-file project under `root`; -> (path of main.gdn, source of main, number of files).
+    diamond: `depth` layers of `width` files, every file imports ALL files of the next layer (width^depth paths,
+    width*depth files); -cycle: the last layer imports the first layer and every file imports itself;
+    -skip: every file also imports the layer after next; chain: a_0 -> a_1 -> ... ; chain-cycle: the last imports a_0."""
+    import shutil
+    shutil.rmtree(root, ignore_errors=True)
+    os.makedirs(root)
+    lay, depth, width = c["layout"], c["depth"], c["width"]
+    if lay.startswith("chain"):
+        width = 1
+    sides = "abc"[:width]
+    n = 0
+    for i in range(depth + 1):
+        for sd in sides:
+            lines = []
+            targets = []
+            if i < depth:
+                targets += [(i + 1, t) for t in sides]
+                if lay == "diamond-skip" and i + 2 <= depth:
+                    targets += [(i + 2, t) for t in sides]
+            elif lay.endswith("cycle"):
+                targets += [(0, t) for t in sides]
+            if lay == "diamond-cycle":
+                targets.append((i, sd))
+            for (j, t) in targets:
+                lines.append('import "./%s_%d.gdn"' % (t, j))
+            lines.append("public fun %s_%d(): Int { %d }" % (sd, i, i))
+            with open(os.path.join(root, "%s_%d.gdn" % (sd, i)), "w") as f:
+                f.write("\n".join(lines) + "\n")
+            n += 1
+    main = "".join('import "./%s_0.gdn"\n' % sd for sd in sides)
+    main += ("fun vcount(n: Int): Int {\n  let i = 0\n  while i < n {\n    i += 1\n  }\n  i\n}\n"
+             "test vt_main {\n  assert(vcount(3) + a_0() == 3)\n}\n")
+    if c["mode"] == "playground":
+        main += "vcount(10) + %s\n" % " + ".join("%s_0()" % sd for sd in sides)
+    path = os.path.join(root, "main.gdn")
+    with open(path, "w") as f:
+        f.write(main)
+    return path, main, n + 1
 
 
 TICK_SHAPES = ["while-true", "while-counter", "while-nested", "while-break-inner", "for-in-while"]
@@ -353,10 +413,14 @@ def _json_lines(text):
 
 
 def _run(c, w, timeout, tag):
-    src, tname, ntests = program(c, w)
-    path = os.path.join(w.dir, "prog.gdn")
-    with open(path, "w") as f:
-        f.write(src)
+    if c["t"] == "imports":
+        path, src, _ = import_project(c, os.path.join(w.dir, "proj"))
+        tname, ntests = "vt_main", 1
+    else:
+        src, tname, ntests = program(c, w)
+        path = os.path.join(w.dir, "prog.gdn")
+        with open(path, "w") as f:
+            f.write(src)
     evlog = os.path.join(w.logs, "ev-%s.log" % tag)
     try:
         os.unlink(evlog)
@@ -449,6 +513,9 @@ def what(c):
         return "%s body%d" % (c["shape"], c["body"])
     if c["t"] == "sequel":
         return "%s %s" % (c["layout"], "+".join(x.split("-")[0] for x in c["shapes"][:3]))
+    if c["t"] == "imports":
+        return "%s w%d d%s" % (c["layout"], c["width"], "<=12" if c["depth"] <= 12 else "<=20" if c["depth"] <= 20
+                               else "<=26" if c["depth"] <= 26 else ">26")
     if c["t"] == "nest":
         return "%s %s" % (c["ctor"], c["op"])
     if c["t"] == "builtin":
@@ -532,7 +599,8 @@ def run_batch(cases):
     with core.Scratch("gm-c25-") as sc:
         w = G.World(sc, os.urandom(4).hex())
         for i, c in enumerate(cases):
-            t, src, tname, injected = _run(c, w, base_to, "c%d" % i)
+            case_to = IMPORT_TIMEOUT if c["t"] == "imports" else base_to
+            t, src, tname, injected = _run(c, w, case_to, "c%d" % i)
             r = judge(c, t, tname, injected, src)
             if r["status"] == "inconclusive" and t.run.timed_out:
                 if reran:
@@ -540,13 +608,14 @@ def run_batch(cases):
                 else:
                     reran = True
                     mult = 1
-                    t2, src, tname, injected = _run(c, w, base_to * mult * 10, "r%d" % i)
+                    t2, src, tname, injected = _run(c, w, case_to * mult * 10, "r%d" % i)
                     r = judge(c, t2, tname, injected, src)
                     if r["status"] == "inconclusive" and t2.run.timed_out:
                         state = t2.state_at_kill
                         r = {"status": "violated", "key": "%s %s %s -> hang" % (c["t"], c["mode"], what(c)),
-                             "sig": "no-result-within-10x-budget:%s:%s" % (c["t"], what(c).split(" ")[-1]),
-                             "detail": dict(r["detail"], state_at_kill=state, budget_s=base_to * mult * 10)}
+                             "sig": ("no-result:import-graph" if c["t"] == "imports" else
+                                     "no-result-within-10x-budget:%s:%s" % (c["t"], what(c).split(" ")[-1])),
+                             "detail": dict(r["detail"], state_at_kill=state, budget_s=case_to * mult * 10)}
                     elif r["status"] == "held":
                         r["key"] = r["key"] + " (slow)"
             if r.get("sig") == "abort:stack-overflow:?":
